@@ -327,12 +327,36 @@ def check(run: Run) -> None:
         if "base_index+capture_index" not in rets and "capture_index+base_index" not in rets:
             run.finding("C09.g", "boundary_ordinal:no-base", f"boundary_ordinal of a captured source must be base_index + capture index: {rets}", loc=WIRING)
 
+    with run.obligation("C09.d4", "K2", "reduce_: combiners notify each other within one pass (a combiner's output wakes its parent combiner, which pushes the "
+                        "reduce node at NOW and overwrites its single graph slot), so a deadline armed inside the loop is armed again once the pass is complete"):
+        fa = R.fn(run, RT + "reduce_node.cpp", "reduce_evaluate")
+        fl = R.flow(run, fa)
+        arm = lambda x: x.kind == "call" and x.name == "schedule_node" and x.args[:1] == ("view.node_index()",)
+        nodes = R.require_nodes(run, fl, arm, "reduce node re-arm", 1)
+        inner = [i for i in nodes if fl.cfg.nodes[i].loops]
+        outer = [i for i in nodes if not fl.cfg.nodes[i].loops]
+        run.count(1, "C09.d4")
+        if inner and not outer:
+            run.finding("C09.d4", "reduce_evaluate:rearm-only-inside-pass", "the reduce node re-arms a combiner's future deadline only inside the evaluation loop: a "
+                        "combiner evaluated later in the pass pushes the node at NOW and overwrites it; the wake-up booked inside the combiner child is lost "
+                        "when its cycle is otherwise idle", loc=fl.cfg.describe(inner[0]))
+        elif inner:
+            # exempt: the pause path (`return false` resumes the same pass later); the guard of the final re-arm on the accumulated minimum
+            # (it is != MAX_DT whenever an in-loop arm happened)
+            stop = lambda x: x.id in outer or (x.kind == "stmt" and x.label.replace(" ", "") == "returnfalse")
+            w = fl.reach(fl.states_of(lambda x: x.id in inner), avoid=stop, targets=lambda x: x.id == fl.cfg.exit,
+                         edge_skip=lambda node, lab: node.kind == "cond" and re.fullmatch(r"\w+!=MAX_DT|MAX_DT!=\w+", node.label.replace(" ", "")) is not None and lab == "F")
+            if w is not None:
+                run.finding("C09.d4", "reduce_evaluate:rearm-not-repeated", "a completed pass can end without re-arming the earliest pending deadline: " + fl.path_text(w),
+                            loc=fl.cfg.describe(w[0][0]))
+
 
 def HDRX(cn, tail):
     return "graph_header(graph_context(context),graph.data())." + tail
 
 
 VARIANTS = [
+    {"id": "d4-revert-fix-reduce-rearm-in-loop-only", "expect": "C09.d4", "edits": [{"file": RT + "reduce_node.cpp", "find": "            if (earliest_future != MAX_DT) { view.graph().schedule_node(view.node_index(), earliest_future); }\n", "replace": ""}]},
     {"id": "g-returned-capture-without-base", "expect": "C09.g", "edits": [{"file": "src/hgraph/types/graph_wiring.cpp", "find": "              .parent_source_path = {captures.base_index +\n                                     captures.index_for(*output)},", "replace": "              .parent_source_path = {captures.index_for(*output)},"}]},
     {"id": "e-try-except-propagates-before-start", "expect": "C09.e", "edits": [{"file": RT + "try_except_node.cpp", "find": "            single_nested_graph_bind_output(nested, evaluation_time);\n            if (nested.context().options.start_child_on_start)\n            {\n                nested.child_graph().start(evaluation_time);\n                schedule_sampled_input_consumers(\n                    nested.child_graph(),\n                    evaluation_time,\n                    nested.context().spec.input_bindings);\n            }\n            single_nested_graph_propagate_schedule(nested);\n        }", "replace": "            single_nested_graph_bind_output(nested, evaluation_time);\n            single_nested_graph_propagate_schedule(nested);\n            if (nested.context().options.start_child_on_start)\n            {\n                nested.child_graph().start(evaluation_time);\n                schedule_sampled_input_consumers(\n                    nested.child_graph(),\n                    evaluation_time,\n                    nested.context().spec.input_bindings);\n            }\n        }"}]},
     {"id": "b2-evaluating-stuck-on-throw", "expect": "C09.b2", "edits": [{"file": GRAPH, "find": "  auto reset = make_scope_exit([&] noexcept { state.evaluating = false; });\n", "replace": ""}, {"file": GRAPH, "find": "        // (the enclosing mesh node resolves the dependency and resumes us).\n        return false;", "replace": "        // (the enclosing mesh node resolves the dependency and resumes us).\n        state.evaluating = false;\n        return false;"}, {"file": GRAPH, "find": "        graph_header<NestedGraphRuntimeStorage>(runtime, graph.data()));\n  }\n  return true;\n}", "replace": "        graph_header<NestedGraphRuntimeStorage>(runtime, graph.data()));\n  }\n  state.evaluating = false;\n  return true;\n}"}]},
